@@ -12,6 +12,7 @@ CONSTANTS
   WithCrash = TRUE
   WithRepoOps = TRUE
   WithSquash = TRUE
+  Ops = {"label", "delete", "diff", "download", "keys", "update"}
 INVARIANTS TypeOK VisibleComplete LabelsResolve SquashKeepsLatest
 CONSTRAINT Dump
 CHECK_DEADLOCK FALSE
